@@ -161,6 +161,10 @@ func ruleC20(c *Check, p *Prog) {
 	if len(adds) != 1 || adds[0].Args[1] != ldS || adds[0].Loop != nil || len(sends) != 1 || adds[0].Seq > sends[0].Seq {
 		dprobs = append(dprobs, "wg.Add(s) does not precede dispatch")
 	}
+	// the workers exist before the first token is sent (a queue filled first blocks as soon as s exceeds its capacity)
+	if len(sends) == 1 && goEv.Seq > sends[0].Seq {
+		dprobs = append(dprobs, "the workers are started after the dispatch loop: sends block once s exceeds the channel's capacity")
+	}
 	var retEv *Event
 	for _, r := range sum.Rets {
 		if !r.Dead {
